@@ -9,6 +9,10 @@ from vf import decoders as D, pysym, smt
 from vf.decoders import bit, bv, cells, header, rgb6, sel
 from vf.pysym import Bytes, Failure, Fmt, HarnessGap, Path, Sink, SList, Stream, Sym, is_sym, term
 
+# symbolic run lengths are unrolled by forking up to this many repetitions (boundary counts are pinned separately)
+RUN_UNWIND = 5 if __import__("os").environ.get("VERIF_TIER_EFFECTIVE") == "thorough" else 3
+
+
 
 class Case:
     """one symbolic run: .paths = list of dict(pc, status, detail, got (terms), want (terms | None), header_ok, complete, ...)"""
@@ -187,7 +191,8 @@ def max_row_ref(arte, row_cells):
     return want
 
 
-def max_case(arte, newsroom, cols, rows, skip, ignore, nbytes, unwind=3):
+def max_case(arte, newsroom, cols, rows, skip, ignore, nbytes, unwind=None):
+    unwind = unwind or RUN_UNWIND
     mod = D.load("maxtoppm")
     cs, pre = cells(nbytes, "m")
     case = Case(f"max:mode{arte}{'N' if newsroom else ''}c{cols}r{rows}s{skip}{'i' if ignore else ''}L{nbytes}", "maxtoppm",
@@ -200,7 +205,7 @@ def max_case(arte, newsroom, cols, rows, skip, ignore, nbytes, unwind=3):
         return dict(input_image_stream=stream, output_image_stream=sink, arte=arte, newsroom=newsroom, cols=cols, rows=rows, skip=skip,
                     ignore_header_errors=ignore), sink, {"in.max": stream}, {}
 
-    results, case.src = D.run_function(mod, "convert", build, pre, unwind=unwind)
+    results, case.src = D.run_function(mod, "convert", build, pre, unwind=unwind or RUN_UNWIND)
     body = cs[(skip or 0):]
     for r in results:
         out = r["out"]
@@ -255,7 +260,7 @@ C2R_REF = [0, 21, 2, 20, 6, 49, 35, 4, 33, 5, 14, 1, 12, 10, 3, 28, 7, 17, 16, 2
 MGE_TITLE = list(b"TITLE\0") + [0] * 24
 
 
-def mge_case(mode, ndata, rgb=True, unwind=3, header_symbolic=False):
+def mge_case(mode, ndata, rgb=True, unwind=None, header_symbolic=False):
     """mode 'raw' (flag byte non-zero) or 'rle' (flag byte 0); ndata symbolic bytes after the 51-byte header"""
     mod = D.load("mgetoppm")
     pal, pre_p = cells(16, "pal")
@@ -278,7 +283,7 @@ def mge_case(mode, ndata, rgb=True, unwind=3, header_symbolic=False):
         sink = Sink("out.ppm")
         return dict(input_image_stream=stream, output_image_stream=sink), sink, {"in.mge": stream}, {}
 
-    results, case.src = D.run_function(mod, "convert", build, pre, unwind=unwind)
+    results, case.src = D.run_function(mod, "convert", build, pre, unwind=unwind or RUN_UNWIND)
     hdr = header("P6\n320 200\n255\n")
     palterms = [term(c) for c in pal] if rgb else [sel(C2R_REF, term(c)) for c in pal]
     for r in results:
@@ -330,7 +335,7 @@ def ref_rle_mge(path, data, palterms, limit_bytes):
 
 
 # ----------------------------------------------------------------------------- RAT
-def rat_case(ndata, unwind=3, packed_symbolic=False):
+def rat_case(ndata, unwind=None, packed_symbolic=False):
     mod = D.load("rattoppm")
     esc, pre_e = cells(1, "esc")
     pk, pre_k = cells(1, "packed")
@@ -346,7 +351,7 @@ def rat_case(ndata, unwind=3, packed_symbolic=False):
         sink = Sink("out.ppm")
         return dict(input_image_stream=stream, output_image_stream=sink), sink, {"in.rat": stream}, {}
 
-    results, case.src = D.run_function(mod, "convert", build, pre, unwind=unwind)
+    results, case.src = D.run_function(mod, "convert", build, pre, unwind=unwind or RUN_UNWIND)
     hdr = header("P6\n320 199\n255\n")
     for r in results:
         out = D.out_terms(r["out"])
